@@ -150,7 +150,8 @@ class NotifyOracle:
         evs = []
         for m in notes:
             self.nmsg += 1
-            ev = m.method & 0x7FFF
+            # the event is identified by its method id 0x8000 | event id (an event id may have bit 15 set already)
+            ev = next((e for e in self.ev_group if (0x8000 | e) == m.method), m.method & 0x7FFF)
             evs.append(ev)
             flag, sid = self.session.expect(dst)
             if m.session != sid:
@@ -202,9 +203,33 @@ class NotifyOracle:
                     x = ex[j]
                     rule = "INITIAL" if x["kind"] == "initial" else "ROUND-SET"
                     self.viol(rule, f"{x['kind']} notification {x['events']} to {dst} due in [{x['lo']:.6f}, {x['hi']:.6f}] was not sent", "missing-" + x["kind"])
+        self._cyclic_liveness()
         return self
 
+    def _cyclic_liveness(self):
+        """a group with an interval keeps its rounds going: an endpoint subscribed throughout a span longer than two
+        intervals (plus resolver latency and injected busy time) receives a datagram with the group's events in it"""
+        busy_total = sum(b - a for a, b in self.busy)
+        for (g, ep), ivs in self.subs.items():
+            I = self.groups[g].get("interval")
+            if not I or not self.order.get(g):
+                continue
+            G = 2 * I + 2 * self.Lmax + busy_total + 4 * RES
+            dst = ep_addr(ep)
+            times = sorted(d["T"] for d in self.dgrams if d["dst"] == dst and d["group"] == g)
+            for t0, t1 in ivs:
+                b = min(t1, self.t_end)
+                pts = [t0] + [t for t in times if t0 <= t <= b] + [b]
+                for x, y in zip(pts, pts[1:]):
+                    if y - x > G:
+                        self.viol("ROUND-SET", f"no cyclic notification of eventgroup {g} to {dst} between {x:.6f} and {y:.6f} (interval {I}) although it was subscribed from {t0:.6f} to {t1:.6f}", "cyclic-missing")
+                        break
+                else:
+                    if b - t0 > G:
+                        self.probe("cyclic_liveness_judged")
+
     def walk(self, log):
+        self.t_end = log[-1][2] if log else 0.0
         self.busy = [(e[2] - e[5], e[2]) for e in log if e[4] == "busy"]
         self.rounds_pending = []
         for idx, (seq, it, T, actor, kind, data) in enumerate(log):
